@@ -83,6 +83,10 @@ def gen_case(rng, tier, index):
         "dataset_version": rng.choice(["1.0.0", "0.0.1-β", ""]),
         "download_from": rng.choice(["", "https://example.org/ä?q=1"]),
         "custom_metadata": gen_meta(rng)}
+    # the description declares the (older) library version that recorded it
+    if rng.random() < 0.3:
+        hist["metadata"]["sedpack_version"] = rng.choice(["0.0.1", "patch-1",
+                                                          "zero"])
     # shard-level metadata values (nested JSON), used through "val" specs
     hist["shard_meta"] = [gen_meta(rng) or {"a": 1} for _ in range(3)]
     for ses in hist["sessions"]:
@@ -94,7 +98,13 @@ def gen_case(rng, tier, index):
         ops.append({"op": "session", "k": k})
         for _ in range(rng.choice([0, 1, 1, 2])):
             kind = rng.choice(["reopen", "relocate", "relocate", "version",
-                               "amend"])
+                               "amend", "recorded_older"])
+            if kind == "recorded_older":
+                # the files were recorded by an older library version; the
+                # running one opens them and goes on writing
+                ops.append({"op": "recorded_older", "delta": rng.choice(
+                    ["patch-1", "zero", "0.0.1"])})
+                continue
             if kind == "amend":
                 ops.append({"op": "amend", "what": rng.choice(
                     ["dataset", "attribute"]), "value": gen_meta(rng),
@@ -178,6 +188,10 @@ def run_case(case):
                 fs, sc:
             import sedpack
             from sedpack.io.metadata import Metadata
+            dv = hist["metadata"].get("sedpack_version")
+            if dv and not dv[0].isdigit():
+                hist["metadata"]["sedpack_version"] = skewed(
+                    sedpack.__version__, dv)
             hr = dsgen.HistoryRunner(
                 hist, root, pool_factory=lambda ses: simexec.SimPool)
             try:
@@ -234,6 +248,18 @@ def run_case(case):
                         relocate(hr, op, scratch, nreloc, probes)
                     elif op["op"] == "version":
                         version_gate(hr, op, sedpack.__version__, stats)
+                    elif op["op"] == "recorded_older":
+                        older = (op["delta"] if op["delta"][0].isdigit() else
+                                 skewed(sedpack.__version__, op["delta"]))
+                        path = os.path.join(hr.root, "dataset_info.json")
+                        with fslayer.real_open(path, encoding="utf-8") as f:
+                            doc = json.load(f)
+                        doc["metadata"]["sedpack_version"] = older
+                        with fslayer.real_open(path, "w",
+                                               encoding="utf-8") as f:
+                            json.dump(doc, f)
+                        hist["metadata"]["sedpack_version"] = older
+                        hr.ds = hr.sio.Dataset(hr.root)
                     with fs.suspended():
                         oracle_reload(hr, stats)
                         if nreloc:
